@@ -344,7 +344,7 @@ func runC20(c *CaseCtx) {
 				c.Stat("cov:reopen-failed:"+errClass(err.Error()), 1)
 			}
 		}
-		if len(c.res.Viol) >= 8 {
+		if c.Unexplained() >= 8 {
 			break
 		}
 	}
